@@ -200,10 +200,14 @@ def from_sympy(x):
         if isinstance(v, sympy.Mod):
             return ["o", "mod", [go(v.args[0]), go(v.args[1])]]
         if isinstance(v, (sympy.Sum, sympy.Product)):
-            if len(v.limits) != 1 or len(v.limits[0]) != 3:
-                return ["f", "<multi-limit>", []]
-            it, lo, hi = v.limits[0]
-            return ["b", "sum" if isinstance(v, sympy.Sum) else "prod", it.name, go(v.function), go(lo), go(hi)]
+            if any(len(l) != 3 for l in v.limits):
+                return ["f", "<open-limit>", []]
+            # several limits (sympy merges a sum of a sum): the FIRST limit is the innermost one
+            kind = "sum" if isinstance(v, sympy.Sum) else "prod"
+            e = go(v.function)
+            for it, lo, hi in v.limits:
+                e = ["b", kind, it.name, e, go(lo), go(hi)]
+            return e
         if isinstance(v, AppliedUndef):
             return ["f", type(v).__name__, [go(a) for a in v.args]]
         if isinstance(v, sympy.Heaviside) and len(v.args) == 2 and v.args[1] == sympy.Rational(1, 2):
